@@ -116,7 +116,12 @@ def rule_b(ctx):
       if m is None:
         raise AnalysisError(f'{cls_fq}.{meth} vanished')
       rets = [A.unparse(n.value) for n in ast.walk(m.node) if isinstance(n, ast.Return)]
-      ctx.ob('C07.b', m.fq, rets == [want], f'{meth} is {want}', m.loc, f'returns {rets}')
+      ok = rets == [want]
+      if not ok and meth == '__copy__' and rets == ['self.copy()']:
+        # an alias of copy(), which is itself obliged to be the shallow symbolic clone (below)
+        cp = idx.lookup_method(cls_fq, 'copy')
+        ok = cp is not None and [A.unparse(n.value) for n in ast.walk(cp.node) if isinstance(n, ast.Return)] == ['self.sym_clone(deep=False)']
+      ctx.ob('C07.b', m.fq, ok, f'{meth} is {want}', m.loc, f'returns {rets}')
   for cls_fq in (S.DICT, S.LIST):
     m = idx.lookup_method(cls_fq, 'copy')
     if m is None or idx.enclosing_class(m).fq != cls_fq:
